@@ -132,7 +132,27 @@ let live_ok (prefix, start, last) (chunk : string list) : bool * n list option =
   | ["X"] -> (true, last)
   | _ -> (false, last)
 
-let eval (inp : string list) (impl : string list) : Drv.verdict =
+(* UNIQ t1 t2 ... : reflect.go.  obs = U ok|err (OpenTables = uniqKeys.Check) then the raw content
+   after writing value <i> at key 6b through the table MigrateTables created for tag i. *)
+let rec eval (inp : string list) (impl : string list) : Drv.verdict =
+  match inp with
+  | "UNIQ" :: tags ->
+    let tags = List.map bytes_of_tok tags in
+    let used = table_tags tags in
+    let u_model = if uniq_check used then "ok" else "err" in
+    let puts = List.mapi (fun i p -> ["put"; "0/" ^ tok_of_bytes p; "6b"; Printf.sprintf "%02x" (i + 1)]) used in
+    let hist = ["mem"] @ List.concat_map (fun o -> ";" :: o) (puts @ [["it"; "0"; "~"; "~"]]) in
+    (match impl with
+     | "U" :: u :: rest ->
+       let v = eval_history hist rest in
+       let sound = (u <> "ok") || incomparable_all used in
+       { v with Drv.model_obs = "U" :: u_model :: v.Drv.model_obs;
+                spec_ok = (match v.Drv.spec_ok with Some b -> Some (b && sound) | None -> Some sound);
+                note = (if sound then v.Drv.note else "uniqKeys.Check accepted comparable prefixes") }
+     | _ -> { Drv.default_verdict with model_obs = ["U"; u_model]; spec_ok = Some false })
+  | _ -> eval_history inp impl
+
+and eval_history (inp : string list) (impl : string list) : Drv.verdict =
   let parts = split_on ";" inp in
   let header, ops = (match parts with h :: o -> h, o | [] -> failwith "empty case") in
   let m0, s0 = init_of_header header in
